@@ -166,9 +166,12 @@ pub fn ast_strategy() -> BoxedStrategy<Case> {
     pool_strategy()
         .prop_flat_map(move |pool| {
             let mut cfg = GenCfg::standard(pool);
-            cfg.allow_misplaced_wild = !wild_open;
-            cfg.allow_lowerless_hyphen = !hyph_open;
-            cfg.allow_empty_alt = !empty_open;
+            // the C01 finding classes (npm semantics) are no reason to exclude these spellings here:
+            // this property compares the crate with itself
+            let _ = (wild_open, hyph_open, empty_open);
+            cfg.allow_misplaced_wild = true;
+            cfg.allow_lowerless_hyphen = true;
+            cfg.allow_empty_alt = true;
             cfg.max_toks = 2;
             range_ast_with(cfg)
         })
